@@ -240,6 +240,17 @@ def handleOpts (a : Args) : String :=
     if ok then "ok" else "err"
   | _, _, _, _, _, _ => "bad-op"
 
+/-- `opts.lzmanew dict= lc= lp= pb= nice= header=<0|1> marker=<0|1> expected=<none|exact|more> preset=<none|len>` -/
+def handleLzmaNew (a : Args) : String :=
+  match a.nat? "dict", a.nat? "lc", a.nat? "lp", a.nat? "pb", a.nat? "nice", a.nat? "header", a.nat? "marker",
+        a.get? "expected", a.get? "preset" with
+  | some dict, some lc, some lp, some pb, some nice, some h, some m, some e, some p =>
+    match Options.lzmaWriterNew { dict, lc, lp, pb, nice } (h != 0) (m != 0) (e != "none") (p != "none") with
+    | .ok => "ok"
+    | .invalid => "err"
+    | .unsupported => "unsupported"
+  | _, _, _, _, _, _, _, _, _ => "bad-op"
+
 def showNats (l : List Nat) : String := if l.isEmpty then "-" else ",".intercalate (l.map toString)
 
 /-- `split.xz|split.lzip|split.mt lim=<n> parts=<n,n,…>` -/
@@ -389,6 +400,7 @@ def handle (cmd : String) (a : Args) : String :=
   | "split.xz" | "split.lzip" | "split.mt" => handleSplit cmd a
   | "lzma.expected" => handleExpected a
   | "opts.validate" => handleOpts a
+  | "opts.lzmanew" => handleLzmaNew a
   | "bcj.wstream" | "bcj.rstream" => handleBcjStream cmd a
   | "mem.enc" | "mem.lzmadec" | "mem.lzma2dec" => handleMem cmd a
   | "xz.dec" | "xz.strict" | "lzip.dec" => handleContainer cmd a
